@@ -1,20 +1,12 @@
-"""Registry entry for C04 (see tools/registry.py)."""
+"""Registry entry for C03 (see tools/registry.py)."""
 
-SPEC = {'id': 'C04',
- 'modules': ['Snowflake.Props.C04', 'Snowflake.Tie.Broker'],
- 'theorems': [('Snowflake.Props.C04', 'Snowflake.Broker.C04.poll_progress'),
-              ('Snowflake.Props.C04', 'Snowflake.Broker.C04.client_progress'),
-              ('Snowflake.Props.C04', 'Snowflake.Broker.C04.ans_progress'),
-              ('Snowflake.Props.C04', 'Snowflake.Broker.C04.poll_completes'),
-              ('Snowflake.Props.C04', 'Snowflake.Broker.C04.client_completes'),
-              ('Snowflake.Props.C04', 'Snowflake.Broker.C04.answer_completes'),
-              ('Snowflake.Props.C04', 'Snowflake.Broker.C04.gauge_matches_map'),
-              ('Snowflake.Props.C04', 'Snowflake.Broker.C04.quiescent_clean'),
-              ('Snowflake.Props.C04', 'Snowflake.Broker.C04.quiescent_fresh_client_denied'),
-              ('Snowflake.Props.C04', 'Snowflake.Broker.C04.pinned_poll_timeout_vs_match_deadlocks'),
-              ('Snowflake.Props.C04', 'Snowflake.Broker.C04.pinned_answer_vs_client_timeout_deadlocks'),
-              ('Snowflake.Props.C04', 'Snowflake.Broker.C04.pinned_early_answer_deadlocks'),
-              ('Snowflake.Props.C04', 'Snowflake.Broker.C04.fixed_same_schedules_complete')],
+SPEC = {'id': 'C03',
+ 'modules': ['Snowflake.Props.C03', 'Snowflake.Tie.Broker'],
+ 'theorems': [('Snowflake.Props.C03', 'Snowflake.Broker.C03.match_compatible'),
+              ('Snowflake.Props.C03', 'Snowflake.Broker.C03.denied_only_if_pool_empty'),
+              ('Snowflake.Props.C03', 'Snowflake.Broker.C03.match_is_min_clients'),
+              ('Snowflake.Props.C03', 'Snowflake.Broker.C03.match_or_deny'),
+              ('Snowflake.Props.C03', 'Snowflake.Broker.C03.waiting_mem')],
  'ties': [('Snowflake.Tie.Broker', 'Snowflake.Tie.Broker.skel_Broker_tie'),
           ('Snowflake.Tie.Broker', 'Snowflake.Tie.Broker.skel_RequestOffer_tie'),
           ('Snowflake.Tie.Broker', 'Snowflake.Tie.Broker.skel_AddSnowflake_tie'),
@@ -28,7 +20,7 @@ SPEC = {'id': 'C04',
           ('Snowflake.Tie.Broker', 'Snowflake.Tie.Broker.skel_heap_Pop_tie'),
           ('Snowflake.Tie.Broker', 'Snowflake.Tie.Broker.timeouts_positive'),
           ('Snowflake.Tie.Broker', 'Snowflake.Tie.Broker.nat_names_distinct')],
- 'harness': [{'pkg': 'broker', 'test': 'TestVerifC04$', 'timeout': '30m'}],
+ 'harness': [{'pkg': 'broker', 'test': 'TestVerifC03$', 'timeout': '30m'}],
  'overlay': {'broker/zz_verif_core_test.go': 'broker_core_test.go'},
  'rule': 'cases = independent real brokers (NewBrokerContext + Broker goroutine + IPC methods) each driven through a '
          'generated quiet history (polls with generated NAT type incl. absent/empty and client counts, clients with '
@@ -37,18 +29,18 @@ SPEC = {'id': 'C04',
          "plus forced-race schedules (timer between two lock acquisitions, forced with the package's own "
          'snowflakeLock) compared with explicit label traces; non-trivial = at least one event; distinct = distinct '
          '(class, event list)',
- 'level_text': 'From every reachable state of the broker model every unfinished poll / client / answer request is '
-               'driven to its response by at most 8 / 6 / 2 system steps (timer firings included), proved by a rank '
-               'argument over an inductive invariant; at quiescence both heaps and the id map are empty, the gauge is '
-               '0 and a fresh client is denied. The originally pinned skeleton has kernel-checked deadlock witnesses; '
-               'both defects were re-found on the real broker by forced schedules and repaired (fix: commits).',
+ 'level_text': 'Theorems over every reachable state / every enabled match or denial of the broker model: NAT '
+               'compatibility of every match, refusal only when the eligible pool is empty, the matched proxy is '
+               'clients-minimal in the eligible pool, and match/deny are exhaustive and exclusive. Pool choice, push '
+               "choice and heap order are tied to the source by regenerated skeletons; the real broker's matches are "
+               "validated against the model's guards on generated mixed populations.",
  'level_note': 'Trusted: Lean kernel; the hand-written LTS (atomic critical sections, rendezvous channels, abstract '
                'time: timers are nondeterministic; pools abstracted to sets with a clients-minimal pop - '
                'container/heap itself is verified separately in Base/Heap for C17 and tied by skeleton + observed on '
                "the real heaps); poll identity = session id (pairwise distinct ids are in the property's quantifier); "
                'net/http, prometheus and geoip are outside the model; Go mutex FIFO hand-off is used by the forcing '
                'harness only, never by a theorem.',
- 'design_ref': 'DESIGN.md §5.4',
+ 'design_ref': 'DESIGN.md §5.3',
  'assumptions': ['timers eventually fire',
                  'session ids of concurrent polls are pairwise distinct',
                  'no system step of another request disables an enabled step (commutation, argued not proved)'],
